@@ -27,6 +27,10 @@ CHECKS = {
          "Exploration: thousands of histories of definitions, assignments, closure creations/calls and vector operations with aliasing through variables, arguments, lists, vectors and captured references; every form's value is compared with the store model and the partition of vector-valued variables into identity classes with the model's.",
          "Trusted: refeval.rs store model. Cycles through vectors are never created.",
          "DESIGN.md §5 C03"),
+ "C04": ("exhaustive small rule sets x small uses + random rule sets with uses derived from their own patterns and mutated; oracle: reference syntax-rules matcher/instantiator",
+         "Exploration, exhaustive for one-rule sets over a 6-element pattern alphabet (517 patterns x 259 uses), sampled two-rule sets, random larger rule sets; the value of a use must be the reference instantiation of the first matching rule, a use matching no rule must be a MacroMissMatch error.",
+         "Trusted: refmacro.rs (appendix C of DESIGN.md, own unit tests). Class as fixed by the property: final ellipsis, depth 1, >= 1 item per ellipsis.",
+         "DESIGN.md §5 C04"),
  "C05": ("exhaustive nesting family (every derived form in every sub-form position of every derived form) + random type-directed programs with ticking sub-forms against the reference evaluator's direct R7RS semantics",
          "Exploration: 576 exhaustive nestings plus thousands of random programs; value and order/multiplicity of evaluation (tick trace) per form.",
          "Trusted: refeval.rs. Known finding: unhygienic templates capture user variables x/temp/atom-key (attributed by a renaming experiment, avoided by construction in 7/8 of the random cases).",
